@@ -71,6 +71,28 @@ func (v verificationMethodValidator) Validate(document did.Document) error {
 			return fmt.Errorf("invalid verificationMethod: %w", err)
 		}
 	}
+	// A relationship can also hold a verification method of its own (embedded instead of referring to an entry of verificationMethod).
+	// Such a method is a key of the document like any other (the holder of a capabilityInvocation key can update the document),
+	// so the same rules apply to it.
+	listed := make(map[*did.VerificationMethod]bool, len(document.VerificationMethod))
+	for _, method := range document.VerificationMethod {
+		listed[method] = true
+	}
+	for _, relationships := range []did.VerificationRelationships{document.Authentication, document.AssertionMethod, document.KeyAgreement, document.CapabilityInvocation, document.CapabilityDelegation} {
+		for _, relationship := range relationships {
+			method := relationship.VerificationMethod
+			if method == nil || listed[method] {
+				continue
+			}
+			listed[method] = true
+			if err := verifyDocumentEntryID(document.ID, method.ID.URI(), knownKeyIds); err != nil {
+				return fmt.Errorf("invalid verificationMethod: %w", err)
+			}
+			if err := v.verifyThumbprint(method); err != nil {
+				return fmt.Errorf("invalid verificationMethod: %w", err)
+			}
+		}
+	}
 	return nil
 }
 
